@@ -670,7 +670,7 @@ spif_ustr_splice(spif_ustr_t self, spif_ustridx_t idx, spif_ustridx_t cnt, spif_
     REQUIRE_RVAL(idx >= 0, FALSE);
     REQUIRE_RVAL(idx < self->len, FALSE);
     if (cnt < 0) {
-        cnt = idx + self->len + cnt;
+        cnt = self->len - idx + cnt;
     }
     REQUIRE_RVAL(cnt >= 0, FALSE);
     REQUIRE_RVAL(cnt <= (self->len - idx), FALSE);
@@ -710,7 +710,7 @@ spif_ustr_splice_from_ptr(spif_ustr_t self, spif_ustridx_t idx, spif_ustridx_t c
     REQUIRE_RVAL(idx >= 0, FALSE);
     REQUIRE_RVAL(idx < self->len, FALSE);
     if (cnt < 0) {
-        cnt = idx + self->len + cnt;
+        cnt = self->len - idx + cnt;
     }
     REQUIRE_RVAL(cnt >= 0, FALSE);
     REQUIRE_RVAL(cnt <= (self->len - idx), FALSE);
